@@ -146,7 +146,7 @@ def shard_random(sh, part, parts):
     cr = pipe.fresh_core_ranking()
     mon = SamplerMonitor(sh, cr)
     rng = sh.rng('rnd', part)
-    reps = 60 if sh.tier == 'quick' else 250
+    reps = 60 if sh.tier == 'quick' else 1500
     for h in range(reps):
         mon.reset_history()
         nlists = rng.choice([1, 1, 2, 3])
@@ -193,7 +193,7 @@ def shard_pipeline(sh, part):
     cols = ['f%d' % i for i in range(nfeat)] + ['label']
     if part % 2:
         cols = ['label'] + ['f%d' % i for i in range(nfeat)]      # pairs come out as ('label', f): not in sorted order
-    batches = 30 if sh.tier == 'quick' else 200
+    batches = 30 if sh.tier == 'quick' else 600
     cap = rng.randint(1, nfeat)
     total_evaluated = Counter()
     for b in range(batches):
